@@ -480,6 +480,13 @@ func renderProg(prog N, pkg string) string {
 				rs = append(rs, goType(t))
 			}
 		}
+		// Go's grouped form (a, b int) for neighbours of one type, in every other function: two spellings of the same list
+		if nm := str(fn["n"]); len(nm)%2 == 1 {
+			ps = groupFields(ps)
+			if fn["named"].(bool) {
+				rs = groupFields(rs)
+			}
+		}
 		res := ""
 		switch {
 		case len(rs) == 1 && !fn["named"].(bool):
@@ -502,6 +509,26 @@ func renderProg(prog N, pkg string) string {
 		head += "type S struct {\n\tA int\n\tB int\n}\n\n"
 	}
 	return head + p.b.String()
+}
+
+// groupFields merges neighbouring "name type" fields of equal type into "name, name type".
+func groupFields(fs []string) []string {
+	var out []string
+	for i := 0; i < len(fs); {
+		sp := strings.IndexByte(fs[i], ' ')
+		names, typ := fs[i][:sp], fs[i][sp:]
+		j := i + 1
+		for ; j < len(fs); j++ {
+			sq := strings.IndexByte(fs[j], ' ')
+			if fs[j][sq:] != typ {
+				break
+			}
+			names += ", " + fs[j][:sq]
+		}
+		out = append(out, names+typ)
+		i = j
+	}
+	return out
 }
 
 // nodeKinds: the construct signature of a (minimised) program: statement / expression kinds it is made of.
